@@ -1049,7 +1049,7 @@ impl World {
                             self.stats.fault("dh-failure");
                         },
                         _ => {
-                            let mut props = vec!["C02", "C14"];
+                            let mut props = vec!["C02", "C14", "C01"];
                             if prev_err {
                                 props.push("C07");
                             }
@@ -1697,8 +1697,13 @@ impl World {
                     for w in &whys {
                         match w {
                             Why::OneWay => props.push("C11"),
-                            Why::Oversize | Why::ShortOut => props.push("C14"),
-                            Why::Exhausted => props.push("C09"),
+                            Why::Oversize | Why::ShortOut => {
+                                props.push("C14");
+                                if altered {
+                                    props.push("C04");
+                                }
+                            },
+                            Why::Exhausted => props.extend_from_slice(&["C09", "C04", "C05"]),
                             Why::Crypto => props.extend_from_slice(&["C04", "C05", "C08", "C15", "C16"]),
                             _ => {},
                         }
